@@ -296,9 +296,15 @@ func genC16SlowControl(p *Plan, r *RNG) {
 // "expect" are those the plan keeps inside the conditions under which they have to succeed:
 // a Dial to a listening peer not dialled before, an Accept within 20 s of the one connection
 // a permitted peer made for it.
-func genC16Real(p *Plan, r *RNG) {
+func genC16Real(p *Plan, r *RNG) { genRealTCP(p, r, false) }
+
+// genRealTCP: long = the C14 variant, hours of protocol time between the application's calls.
+func genRealTCP(p *Plan, r *RNG, long bool) {
 	baseSrvConfig(p, r)
 	p.Flavor = "e2e-tcprelay"
+	if long {
+		p.Flavor = "e2e-tcprelay-long"
+	}
 	p.Cfg.Listener = "tcp"
 	p.Cfg.Extra = map[string]int64{"tcp_peers": 1}
 	p.Cfg.LatCSns = int64(r.Range(1, 80))*ms + int64(r.Intn(1000))*7 + 3
@@ -339,11 +345,14 @@ func genC16Real(p *Plan, r *RNG) {
 		}
 	}
 	rounds := r.Range(1, 6)
+	if long {
+		rounds = r.Range(4, 12)
+	}
 	for i := 0; i < rounds; i++ {
 		pi := r.Intn(np)
 		pid, peer := p.Peers[pi].ID, p.Peers[pi].Addr
 		g := gap(int64(r.Range(100, 2500)) * ms)
-		if r.Chance(1, 8) {
+		if r.Chance(1, 8) || (long && r.Chance(1, 2)) {
 			// long quiet periods: the allocation and its permissions are refreshed by the library
 			g = gap(int64(r.PickInt([]int{200, 400, 700, 2000, 4000})) * sec)
 			// (a permission asked for with Client.CreatePermission is a single request: only
@@ -437,7 +446,7 @@ func genC16Real(p *Plan, r *RNG) {
 	}
 	add(Op{Actor: "", Kind: "wait", At: gap(10 * sec)})
 	p.QuietNS = 40 * sec
-	if r.Chance(1, 4) {
+	if r.Chance(1, 4) && !long {
 		addFaults(p, r, 1)
 	}
 }
